@@ -24,6 +24,7 @@ ASSUMPTIONS = [
     "magnitudes are chosen so that the float64 result fits the input dtype (|x| <= max/3 for integers with |coeff| <= 2, <= 1e4 for float16); "
     "int16 / int32 signals holding the most negative and most positive value of the dtype are generated too and kept when every value of the float64 recurrence fits the dtype",
     "Dither coefficients are >= 0 (it is a standard deviation; numpy rejects a negative scale)",
+    "unsigned samples (uint16) are values 1000..21000; a pre-emphasis case whose float64 recurrence would be negative somewhere is discarded (a negative value has no unsigned cast)",
     "Dither is given int64 signals below 2**53 only (exactly representable in the documented float64 intermediate); Preemphasize also gets int64 beyond 2**53, judged against the float64 recurrence",
     "for non-float64 dtypes the dithered result may differ from cast(x + c*z) by one quantum of the dtype (the statement does not fix the rounding)",
     "nothing is asserted about the input array after a call with in_place=True (it may or may not have been overwritten)",
@@ -37,9 +38,10 @@ DTYPES = {
     "i2": np.int16,
     "i4": np.int32,
     "i8": np.int64,
+    "u2": np.uint16,
 }
 # largest |x| generated: 3*|x| (|coeff| <= 2) and x + 600 (dither, coeff <= 100) must fit
-MAX_MAG = {"f8": 1e6, "f4": 1e6, "f2": 1e4, "i2": 10000, "i4": 7e8, "i8": 2.0 ** 61}
+MAX_MAG = {"f8": 1e6, "f4": 1e6, "f2": 1e4, "i2": 10000, "i4": 7e8, "i8": 2.0 ** 61, "u2": 20000}
 KINDS = ["noise", "noise", "noise", "const", "impulse", "ramp", "alternating", "zeros", "extremes"]
 LAYOUTS = ["contig", "contig", "contig", "stride2", "reversed", "subclass"]
 
@@ -79,6 +81,9 @@ def _base_signal(n, dt, seed, magfrac, kind):
         v = mag * (1 - 2 * (np.arange(n) % 2))
     else:
         v = np.zeros(n)
+    if dt.startswith("u"):
+        # unsigned samples: magnitudes on top of an offset of 1000, so that noise of 6.5 x 100 still fits below and 3 x above
+        return (np.trunc(np.abs(v)) + 1000).astype(dtype)
     if dt.startswith("i"):
         if dt == "i8":
             # keep full 64-bit integer resolution (values beyond 2**53 are not exact in float64)
@@ -109,7 +114,7 @@ def _with_layout(vals, layout):
 
 def _cast_back(vals64, dt):
     """float64 python list -> dtype dt ('cast back': IEEE rounding for floats, truncation toward 0 for integers)."""
-    if dt.startswith("i"):
+    if dt[0] in "iu":
         return np.array([int(v) for v in vals64], dtype=DTYPES[dt]).reshape(len(vals64))
     return np.array(vals64, dtype=np.float64).astype(DTYPES[dt]).reshape(len(vals64))
 
@@ -139,10 +144,10 @@ def check_preemph(case):
     # reference: the recurrence in IEEE double, cast back
     xs = [float(v) for v in vals.tolist()]
     ys = [xs[i] if i == 0 else xs[i] - coeff * xs[i - 1] for i in range(n)]
-    if case["kind"] == "extremes" and dt.startswith("i"):
+    if (case["kind"] == "extremes" and dt.startswith("i")) or dt.startswith("u"):
         info = np.iinfo(DTYPES[dt])
         if any(not (info.min <= int(v) <= info.max) for v in ys):
-            raise Discard()  # the float64 result does not fit the input dtype
+            raise Discard()  # the float64 result does not fit the input dtype (for unsigned samples: it would be negative)
     want = _cast_back(ys, dt)
     require(isinstance(out, np.ndarray), "apply returned {}", type(out).__name__)
     require(out.dtype == vals.dtype, "result dtype {} for input dtype {}", out.dtype, vals.dtype)
@@ -162,7 +167,7 @@ def check_preemph(case):
         # memory next to a strided view must never be touched
         if case["layout"] == "stride2":
             require(bool(np.all(owner[1::2] == 77)), "in_place call wrote outside the strided view it was given")
-    if case.get("reuse") and n <= 4096 and case["kind"] != "extremes":
+    if case.get("reuse") and n <= 4096 and case["kind"] != "extremes" and not dt.startswith("u"):
         # the same pre-processor object is applied again (streaming chunks of equal size, feeding a result
         # back in): earlier results and the new input must stay what they were
         out_before = out.copy()
@@ -236,7 +241,7 @@ def preemph_enum(tier):
 def _quantum(want64, dt):
     if dt == "f8":
         return None
-    if dt.startswith("i"):
+    if dt[0] in "iu":
         return np.ones_like(want64)
     return np.spacing(np.abs(want64).astype(DTYPES[dt])).astype(np.float64)
 
